@@ -63,11 +63,11 @@ def build_cases(seed: int, deep: bool) -> List[Tuple[str, List[Dict[str, Any]], 
     cases = []
     base = dict(timecode=False, log_level=100, timing=True, order="fwd")
     for name, s in MG.directed():
-        heavy = name.startswith(("connections_", "dynamic_", "traffic_"))
+        heavy_case = name.startswith(("connections_", "dynamic_", "traffic_"))
         cfgs = [base]
-        if deep or not heavy:
+        if deep or not heavy_case:
             cfgs = [base, dict(base, log_level=20, order="rev"), dict(base, timecode=True, log_level=40)]
-        if deep and not heavy:
+        if deep and not heavy_case:
             cfgs += [dict(base, log_level=30, timing=False), dict(base, order="rev")]
         if not deep and name.startswith(("cut_", "leave_", "ident_")):
             cfgs = [cfgs[rng.randrange(len(cfgs))]]
@@ -85,8 +85,10 @@ def build_cases(seed: int, deep: bool) -> List[Tuple[str, List[Dict[str, Any]], 
     for i in range(n_rand):
         nc = rng.choice([2, 3, 4, 6, 8])
         nr = rng.choice([20, 40, 80, 200 if deep else 100])
-        s = MG.random_script(rng, nc, nr, malformed=rng.choice([0.0, 0.02, 0.06]), failp=rng.choice([0.0, 0.03, 0.08]),
-                             big=rng.random() < 0.15)
+        heavy = rng.random() < 0.3
+        s = MG.random_script(rng, nc if not heavy else rng.choice([5, 6, 8]), nr, malformed=rng.choice([0.0, 0.02, 0.06]),
+                             failp=rng.choice([0.0, 0.03, 0.08]) if not heavy else rng.choice([0.1, 0.2]),
+                             big=rng.random() < 0.15, notice_heavy=heavy)
         cfg = MG.configs(rng, deep)
         cases.append((f"r.{i}", s.rounds, cfg, "both"))
         if rng.random() < 0.1:
